@@ -64,7 +64,7 @@ struct lex_lit {
 	int end;        /* index of the closing quote; 0: there is none (then bad is set) */
 	int bad;        /* the characters from c[0] on are NOT the start of a literal: must be diagnosed */
 	int badidx;     /* index of the last character that has to be examined to know that */
-	int bad_nl;     /* ... because a new-line precedes the closing quote */
+	int bad_nl;     /* ... and that character is a new-line */
 	int has_bsnul;  /* a backslash followed by a NUL byte was met (not an escape sequence) */
 	int has_ucn;    /* a universal character name was met */
 };
@@ -92,6 +92,7 @@ lex_lit_scan(const int *c, int q)
 			} else { \
 				r.bad = 1; \
 				r.badidx = (c[(i) + 1] == 'x' || c[(i) + 1] == 'u' || c[(i) + 1] == 'U') ? (i) + 2 : (i) + 1; \
+				r.bad_nl = c[(i) + 1] == '\n' || (c[(i) + 1] == 'x' && c[(i) + 2] == '\n'); \
 			} \
 		} \
 	}
